@@ -1127,7 +1127,7 @@ fn policy_of(name: &str, horizon: usize) -> Policy {
 }
 
 pub fn exec_value(planv: &serde_json::Value, tag: &str) -> (RunResult, Vec<String>) {
-    let empty = |h: String| RunResult { violation: None, harness: Some(h), probes: BTreeMap::new(), decisions: 0, sim_ms: 0, trace: vec![], choices: vec![] };
+    let empty = |h: String| RunResult { violation: None, harness: Some(h), probes: BTreeMap::new(), decisions: 0, sim_ms: 0, trace: vec![], choices: vec![], plan_patch: None };
     let plan: Plan = match serde_json::from_value(planv.clone()) {
         Ok(p) => p,
         Err(e) => return (empty(format!("bad plan: {}", e)), vec![]),
@@ -1136,7 +1136,7 @@ pub fn exec_value(planv: &serde_json::Value, tag: &str) -> (RunResult, Vec<Strin
         Ok(r) => r,
         Err(Stop::Harness(h)) => return (empty(h), vec![]),
         Err(Stop::Violation(v)) => {
-            return (RunResult { violation: Some(v), harness: None, probes: BTreeMap::new(), decisions: 0, sim_ms: 0, trace: vec![], choices: vec![] }, vec![])
+            return (RunResult { violation: Some(v), harness: None, probes: BTreeMap::new(), decisions: 0, sim_ms: 0, trace: vec![], choices: vec![], plan_patch: None }, vec![])
         }
     };
     let explicit = plan.choices.clone();
@@ -1157,5 +1157,5 @@ pub fn exec_value(planv: &serde_json::Value, tag: &str) -> (RunResult, Vec<Strin
     let mut w = w;
     let _ = w.close_store_after_end(store);
     let (probes, decisions, sim_ms, trace) = w.finish();
-    (RunResult { violation, harness, probes, decisions, sim_ms, trace, choices: vec![] }, chooser.record)
+    (RunResult { violation, harness, probes, decisions, sim_ms, trace, choices: vec![], plan_patch: None }, chooser.record)
 }
